@@ -118,7 +118,13 @@ struct VecWorld : World {
             { InSut s; ok = api == 0 ? q->removefirst(q) : api == 1 ? q->removelast(q) : q->removeat(q, idx); }
             return ok ? R_ok() : R_fail();
         }
-        case V_REVERSE: { InSut s; q->reverse(q); return R_ok(); }
+        case V_REVERSE: {
+            // reverse() returns nothing: errno is its only way to report that it could not allocate its scratch element
+            int e;
+            { InSut s; errno = 0; q->reverse(q); e = errno; }
+            if (sim_fault_fired() > 0 && e == ENOMEM) return R_fail("enomem");
+            return R_ok();
+        }
         case V_RESIZE: {
             size_t nm = newmax_of(op, n); bool ok;
             { InSut s; ok = q->resize(q, nm); }
